@@ -17,3 +17,28 @@ Definition sort_d (l : list delivery) : list delivery := fold_right insert_d [] 
 Definition obs_nonempty (cs : list (nat * chan)) (ops : list op) : T :=
   let '(ds, _, st) := run (fresh_world cs) ops in
   Tpair (Tlist (fun d => Tl [Tnat (d_eid d); Tlist Tnat (sort (d_invoked d))]) (sort_d (filter nonempty ds))) (Tnat st).
+
+(* the same Event OBJECT fired more than once: every firing has its own id in the model; the implementation can only
+   tell the object, so the comparison is per object: `al` maps a firing id to the id of the object's first firing, and
+   the handler ids of all firings of one object are merged (a multiset: sorted, duplicates kept) *)
+Definition alias_of (al : list (nat * nat)) (e : nat) : nat :=
+  match find (fun p => Nat.eqb (fst p) e) al with Some p => snd p | None => e end.
+
+Fixpoint merge_adjacent (l : list (nat * list nat)) : list (nat * list nat) :=
+  match l with
+  | [] => []
+  | (k, v) :: r =>
+      match merge_adjacent r with
+      | (k', v') :: r' => if Nat.eqb k k' then (k, v ++ v') :: r' else (k, v) :: (k', v') :: r'
+      | [] => [(k, v)]
+      end
+  end.
+
+Fixpoint insert_kv (x : nat * list nat) (l : list (nat * list nat)) : list (nat * list nat) :=
+  match l with [] => [x] | y :: r => if Nat.leb (fst x) (fst y) then x :: l else y :: insert_kv x r end.
+Definition sort_kv (l : list (nat * list nat)) : list (nat * list nat) := fold_right insert_kv [] l.
+
+Definition obs_nonempty_alias (cs : list (nat * chan)) (ops : list op) (al : list (nat * nat)) : T :=
+  let '(ds, _, st) := run (fresh_world cs) ops in
+  let kvs := map (fun d => (alias_of al (d_eid d), d_invoked d)) (filter nonempty ds) in
+  Tpair (Tlist (fun kv => Tl [Tnat (fst kv); Tlist Tnat (sort (snd kv))]) (merge_adjacent (sort_kv kvs))) (Tnat st).
